@@ -574,3 +574,54 @@ package runtime
 //@ props C10
 //@ requires issendset(sendChans, ops)
 //@ modifies everything
+
+// ---- C02: complex division (z_complex.go) against the Go reference algorithm
+// (spec functions c128div_re / c128div_im in /verif/specs/complex.smt2).
+// The helpers are verified with the real IEEE operations (opt fp exact); the
+// main function uses their contracts only.
+
+//@ func complexDivAbs
+//@ props C02
+//@ ensures C02 abs: isnan(x) ? isnan(result) : result == fabs(x)
+//@ modifies nothing
+
+//@ func complexDivIsNaN
+//@ props C02
+//@ ensures C02 def: result <==> isnan(x)
+//@ modifies nothing
+
+//@ func complexDivIsInf
+//@ props C02
+//@ opt fp exact
+//@ ensures C02 def: result <==> isinf(x)
+//@ modifies nothing
+
+//@ func complexDivIsFinite
+//@ props C02
+//@ ensures C02 def: result <==> (!isnan(x) && !isinf(x))
+//@ modifies nothing
+
+//@ func complexDivInf
+//@ props C02
+//@ opt fp exact
+//@ opt constglobals complexDivZero
+//@ ensures C02 inf: fsame(result, cd_inf)
+//@ modifies nothing
+
+//@ func complexDivCopysign
+//@ props C02
+//@ opt fp exact
+//@ requires magnitude: !isnan(x) && !signbit(x)
+//@ ensures C02 spec: fsame(result, cd_copysign(x, y))
+//@ modifies nothing
+
+//@ func complexDivInf2one
+//@ props C02
+//@ ensures C02 spec: fsame(result, cd_inf2one(x))
+//@ modifies nothing
+
+//@ func Complex128Div
+//@ props C02
+//@ ensures C02 real-part: fsame(real(result), c128div_re(real(n), imag(n), real(m), imag(m)))
+//@ ensures C02 imag-part: fsame(imag(result), c128div_im(real(n), imag(n), real(m), imag(m)))
+//@ modifies nothing
